@@ -80,7 +80,10 @@ def sub(path, name):
 def enclosing(ctx, k):
     """k abstract live enclosing regions (outermost first) in a list, as a walker finds them on entry"""
     regs = [mk_region(ctx, f"enc{i}", "armed") for i in range(k)]
-    return regs, mk_region_list(regs)
+    L = mk_region_list(regs)
+    ctx.ghost["regs0"] = list(regs)
+    ctx.ghost["L"] = L
+    return regs, L
 
 
 # ---------------------------------------------------------------------------------------------
@@ -124,7 +127,9 @@ def cmp_walk(ctx, trace, outcome, exp, mode):
             if args["abort_on_error"] is not (mode == "strict"):
                 probs.append(f"abort_on_error {args['abort_on_error']!r}")
             pe = want.get("parameter_encryption")
-            if isinstance(pe, S.SBool) or isinstance(args["parameter_encryption"], S.SBool):
+            if pe is ANY:
+                pass
+            elif isinstance(pe, S.SBool) or isinstance(args["parameter_encryption"], S.SBool):
                 if not (isinstance(pe, S.SBool) and isinstance(args["parameter_encryption"], S.SBool) and pe.t.eq(args["parameter_encryption"].t)):
                     probs.append(f"parameter_encryption {args['parameter_encryption']!r} expected {pe!r}")
             elif args["parameter_encryption"] is not pe:
@@ -197,6 +202,14 @@ def cmp_walk(ctx, trace, outcome, exp, mode):
 _MISSING = object()
 
 
+class _Any:
+    def __repr__(self):
+        return "<any>"
+
+
+ANY = _Any()  # an argument the property does not constrain
+
+
 def type_matches(actual, want):
     """want: class | typeref string"""
     if isinstance(want, str):
@@ -242,20 +255,36 @@ def acc_goals(ctx, regs, pos0):
     """accounting invariant: every enclosing region that is still live advanced by exactly the bytes consumed"""
     g = {}
     dpos = ctx.ghost.get("pos", z3.IntVal(0)) - pos0
+    tr = ctx.trace
+    padded = any(x[0] == "needs" for x in tr)
+    overrun = any(x[0] == "emit" and type(x[1]).__name__ == "WarningEvent" and type(x[1].error).__name__ == "SizeConstraintExceededError" for x in tr)
+    tag = "ACC-after-reported-overrun" if overrun else ("ACC-after-padded-shortfall" if padded else "ACC")
     for r in regs:
         if r.is_obsolete:
             continue
-        g[f"ACC/{r._ghost['name']}"] = sym_equal(S.SInt(S.term(r.size_already)), S.SInt(z3.simplify(r._ghost["a0"] + dpos)))
+        g[f"{tag}/{r._ghost['name']}"] = sym_equal(S.SInt(S.term(r.size_already)), S.SInt(z3.simplify(r._ghost["a0"] + dpos)))
     return g
 
 
 def finish_unit(ctx, outcome, spec_goal_pairs, site, regs=None, pos0=None, allowed_raises=()):
-    if outcome[0] == "raise" and isinstance(outcome[1].exc, INTERNAL) and not isinstance(outcome[1].exc, allowed_raises):
-        ctx.record("no-internal-error", False, "safety", outcome[1].site or site, detail=repr(outcome[1].exc))
-    else:
-        ctx.record("no-internal-error", True, "safety")
     for name, spec, goal in spec_goal_pairs:
         check_against_spec(ctx, name, spec, goal, site=site)
+    mode = ctx.ghost.get("mode")
+    regs0 = ctx.ghost.get("regs0")
+    L = ctx.ghost.get("L")
+    if mode == "warn" and outcome[0] == "raise" and not isinstance(outcome[1].exc, INTERNAL):
+        e = outcome[1].exc
+        ok = type(e).__name__ == "ValueConstraintViolatedError" or (type(e).__name__ == "SizeConstraintExceededError" and regs0 is not None and any(e.constraint is r for r in regs0))
+        ctx.record("NOABORT/only-an-enclosing-overrun-or-a-fatal-value-error-leaves-the-walker", ok, "post", outcome[1].site or site, detail=f"{type(e).__name__}")
+    if mode == "warn" and outcome[0] == "return" and L is not None and regs0 is not None:
+        stale = [c for c in L if c.is_obsolete is False and not any(c is r for r in regs0)]
+        ctx.record("RECOVER/no-abandoned-region-stays-live", not stale, "post", site, detail=f"{len(stale)} region(s) opened below stay live after the walker returned")
+    if ctx.ghost.get("outside_contract"):
+        pass  # the path is outside the function's precondition for this property; its own obligation was recorded by the spec
+    elif outcome[0] == "raise" and isinstance(outcome[1].exc, INTERNAL) and not isinstance(outcome[1].exc, allowed_raises):
+        ctx.record("no-internal-error", False, "safety", outcome[1].site or site, detail=repr(outcome[1].exc)[:300])
+    else:
+        ctx.record("no-internal-error", True, "safety")
     ctx.record("FRAME/no-write-to-shared-state", not ctx.frame_writes, "frame", detail="; ".join(ctx.frame_writes[:3]))
 
 
@@ -318,6 +347,7 @@ def unit_tpms(key, mode, nenc=1, enc=False):
     def run(ctx):
         regs, L = enclosing(ctx, nenc)
         pos0 = ctx.ghost.setdefault("pos", z3.IntVal(0))
+        ctx.ghost["mode"] = mode
         I = Interp(ctx, stubs=stubs)
         kw = {"size_constraints": L, "abort_on_error": mode == "strict"}
         if enc:
@@ -378,6 +408,7 @@ def unit_tpm2b(tname, mode, nenc=1):
     def run(ctx):
         regs, L = enclosing(ctx, nenc)
         pos0 = ctx.ghost.setdefault("pos", z3.IntVal(0))
+        ctx.ghost["mode"] = mode
         I = Interp(ctx, stubs=stubs)
         igen = run_sync(I.call(M().process_tpm2b, (T, path), {"size_constraints": L, "abort_on_error": strict}))
         outcome = drive_coroutine(ctx, igen)
@@ -549,6 +580,7 @@ def unit_tpmu(uname, sname, mode, nenc=1):
         if strict:
             ctx.assume(allowed_formula(SP, s))  # the selector field was validated when it was decoded (leaf contract)
         selector = TypedStub.make(ST, S.SInt(s))
+        ctx.ghost["mode"] = mode
         I = Interp(ctx, stubs=stubs)
         igen = run_sync(I.call(M().process_tpmu, (T, path, selector), {"size_constraints": L, "abort_on_error": strict}))
         outcome = drive_coroutine(ctx, igen)
@@ -709,4 +741,578 @@ def unit_dispatch(names, mode):
 
                 res = explore(run, max_paths=50)
                 u.add_paths(res, f"WALK/dispatch/{n}{'/byte-sized' if asc_given else ''}{'' if given_list else '/no-list'}/{mode}")
+    return u
+
+
+# ---------------------------------------------------------------------------------------------
+# minimal encoded size of a type (for the termination variant of the byte-sized array)
+
+_MIN = {}
+
+
+def min_size_name(name):
+    L0 = layout()
+    if name in _MIN:
+        return _MIN[name]
+    _MIN[name] = 0
+    if name in L0["primitives"]:
+        r = L0["primitives"][name]["width"]
+    elif name in L0["tpm2b"]:
+        r = min_size_name(L0["tpm2b"][name]["fields"][0]["type"])
+    elif name in L0["structs"]:
+        r = sum(min_size_name(f["type"]) for f in L0["structs"][name]["fields"])
+    else:
+        r = 0
+    _MIN[name] = r
+    return r
+
+
+def min_size(T):
+    if is_list_t(T):
+        return 0
+    return min_size_name(getattr(T, "__name__", ""))
+
+
+def loop_specs():
+    from contracts.walker_loops import ArrayLoop, ByteSizedLoop, StreamLoop
+
+    return {("process_array", 0): ArrayLoop(), ("process_byte_sized_array", 0): ByteSizedLoop(), ("process_command_response_stream", 0): StreamLoop()}
+
+
+def list_types():
+    """element type names E with list[E] occurring in the pinned layout"""
+    L0 = layout()
+    out = set()
+    def scan(fields):
+        for f in fields:
+            if f["type"].startswith("list["):
+                out.add(f["type"][5:-1])
+    for sect in ("structs", "tpm2b"):
+        for ent in L0[sect].values():
+            scan(ent["fields"])
+    for un in L0["unions"].values():
+        scan(un["members"])
+    for c in L0["commands"].values():
+        for k in ("cmd_handles", "cmd_params", "rsp_handles", "rsp_params"):
+            scan(c[k]["fields"])
+    for fr in ("Command", "Response"):
+        scan(L0["frames"][fr]["fields"])
+    return sorted(out)
+
+
+def unit_array(ename, mode, bytesized=False, count_kind="symbolic", nenc=1):
+    L0 = layout()
+    reg, _ = registry()
+    E = reg[ename]
+    LT = list[E]
+    fn = "process_byte_sized_array" if bytesized else "process_array"
+    label = f"WALK/{'bytesized' if bytesized else 'array'}/{ename}/{count_kind}/{mode}"
+    u = UnitResult(label)
+    u.functions = [f"tpmstream.io.binary.marshal:{fn}"]
+    contract = ProcessContract(L0["primitives"], min_size=min_size)
+    stubs = walker_stubs(contract)
+    loops = loop_specs()
+    path = base_path()
+    strict = mode == "strict"
+    from tpmstream.spec.structures.base_types import UINT32
+
+    def run(ctx):
+        regs, L = enclosing(ctx, nenc)
+        pos0 = ctx.ghost.setdefault("pos", z3.IntVal(0))
+        ctx.ghost["mode"] = mode
+        I = Interp(ctx, stubs=stubs, loop_specs=loops)
+        if bytesized:
+            asc = regs[-1]
+            igen = run_sync(I.call(M().process_byte_sized_array, (LT, path, asc), {"size_constraints": L, "abort_on_error": strict}))
+        else:
+            if count_kind == "symbolic":
+                cterm = ctx.fresh_int("count", 0, 2**32 - 1)
+                count = TypedStub.make(UINT32, S.SInt(cterm))
+            else:
+                cterm = z3.IntVal(int(count_kind))
+                count = int(count_kind)
+            igen = run_sync(I.call(M().process_array, (LT, path, count), {"size_constraints": L, "abort_on_error": strict}))
+        outcome = drive_coroutine(ctx, igen)
+        tr = ctx.trace
+
+        def spec(env):
+            items = [("event", path, LT)]
+            rest = tr[1:]
+            k = 0
+            # concretely unrolled iterations and/or a raising element call
+            while k < len(rest) and rest[k][0] == "call" and rest[k][1] == "process":
+                rec = rest[k][2]
+                items.append(("process", {"type": E, "path": rec["args"]["path"], "size_constraints": L}))
+                if rec["case"] != "return":
+                    exc = rec["exc"]
+                    if bytesized and not strict and type(exc).__name__ == "SizeConstraintExceededError" and exc.constraint is regs[-1]:
+                        items.append(("warning", exc))
+                        return {"items": items, "outcome": ("return", None)}
+                    return {"items": items, "outcome": ("raise", exc)}
+                k += 1
+            if k < len(rest) and rest[k][0] == "array":
+                items.append(("array",))
+                k += 1
+            if bytesized:
+                items.append(("assert_done", {"self": regs[-1], "abort_on_error": strict}))
+                ad = next((x[2] for x in rest[k:] if x[0] == "call" and x[1] == "assert_done"), None)
+                if ad is not None and not ad.get("full"):
+                    if strict:
+                        return {"items": items, "outcome": ("raise", ad["exc"])}
+                    items.append(("warning", ad["exc"]))
+                    items.append(("needs",))
+            return {"items": items, "outcome": ("return", "list")}
+
+        def goal(exp):
+            items = exp["items"]
+            g = {}
+            g["trace/length"] = (len(tr) == len(items), f"actual {summ2(tr)} expected {[i[0] for i in items]}")
+            for i, (a, e) in enumerate(zip(tr, items)):
+                if e[0] == "array":
+                    g[f"trace/item{i}:array"] = a[0] == "array"
+            sub_items = [(a, e) for a, e in zip(tr, items) if e[0] != "array"]
+            g2 = cmp_walk(ctx, [a for a, _ in sub_items], outcome, {"items": [e for _, e in sub_items], "outcome": exp["outcome"] if exp["outcome"][1] != "list" else ("return", ("is", outcome[1][1] if outcome[0] == "return" else None))}, mode)
+            g2.pop("trace/length", None)
+            g.update(g2)
+            if exp["outcome"] == ("return", "list"):
+                ok = outcome[0] == "return" and isinstance(outcome[1][1], list) and type_matches(LT, typeref(LT))
+                g["outcome/is-the-element-list"] = (ok, safe_repr(outcome))
+                if ok:
+                    arr = next((x[1] for x in tr if x[0] == "array"), None)
+                    if arr is not None:
+                        g["outcome/list-object"] = outcome[1][1] is arr["list"]
+                        if not bytesized:
+                            g["outcome/element-count"] = sym_equal(S.SInt(arr["count"]), S.SInt(z3.If(cterm >= 0, cterm, 0)))
+                    else:
+                        calls = [x for x in tr if x[0] == "call" and x[1] == "process"]
+                        g["outcome/elements-are-the-results"] = len(outcome[1][1]) == len(calls) and all(x is c[2].get("result") for x, c in zip(outcome[1][1], calls))
+            if outcome[0] == "return":
+                g.update(acc_goals(ctx, regs, pos0))
+            return g
+
+        finish_unit(ctx, outcome, [("TRACE", spec, goal)], f"marshal.py:{fn}")
+        return outcome
+
+    res = explore(run, max_paths=4000)
+    u.add_paths(res, label)
+    if res:
+        u.samples.append({"unit": label, "paths": len(res), "outcomes": [r.outcome for r in res][:8]})
+    return u
+
+
+# ---------------------------------------------------------------------------------------------
+# process_command / process_response / process_command_response_stream
+
+
+def cc_member(ccn):
+    from tpmstream.spec.structures.constants import TPM_CC
+
+    return getattr(TPM_CC, ccn)
+
+
+def frame_contract(ccn=None, other_cc=False):
+    """process contract for the frame units: the commandCode field is fixed to one command code (or to 'no known code')"""
+    from tpmstream.spec.structures.constants import TPM_CC
+
+    L0 = layout()
+    fixed = {}
+    if ccn is not None:
+        val = L0["commands"][ccn]["cc"]
+        fixed[TPM_CC] = lambda v: v == val
+    elif other_cc:
+        vals = [c["cc"] for c in L0["commands"].values()]
+        fixed[TPM_CC] = lambda v: z3.And([v != x for x in vals])
+    return ProcessContract(L0["primitives"], fixed_values=fixed, min_size=min_size)
+
+
+def expect_close(items, rcalls_iter, region, strict, label="assert_done"):
+    """append the expected region closing; returns None (ok) or an outcome tuple"""
+    items.append(("assert_done", {"self": region, "abort_on_error": strict}))
+    ad = next(rcalls_iter, None)
+    if ad is None:
+        return ("missing",)
+    if not ad.get("full"):
+        if strict:
+            return ("raise", ad["exc"])
+        items.append(("warning", ad["exc"]))
+        items.append(("needs",))
+    return None
+
+
+def unit_command(ccn, mode, other_cc=False):
+    """process_command for one command code (or for a code outside TPM_CC)"""
+    from tpmstream.spec.commands import Command
+    from tpmstream.spec.structures.constants import TPM_ST
+
+    L0 = layout()
+    reg, areas = registry()
+    label = f"WALK/command/{ccn or 'unknown-code'}/{mode}"
+    u = UnitResult(label)
+    u.functions = ["tpmstream.io.binary.marshal:process_command"]
+    contract = frame_contract(ccn, other_cc)
+    stubs = walker_stubs(contract)
+    path = base_path()[:1]
+    strict = mode == "strict"
+    fields = L0["frames"]["Command"]["fields"]
+    SESS = int(TPM_ST.SESSIONS._value)
+
+    def run(ctx):
+        pos0 = ctx.ghost.setdefault("pos", z3.IntVal(0))
+        ctx.ghost["mode"] = mode
+        I = Interp(ctx, stubs=stubs)
+        igen = run_sync(I.call(M().process_command, (path,), {"abort_on_error": strict}))
+        outcome = drive_coroutine(ctx, igen)
+        tr = ctx.trace
+
+        def spec(env):
+            items = [("event", path, Command)]
+            pcalls = iter([x[2] for x in tr if x[0] == "call" and x[1] == "process"])
+            rcalls = iter([x[2] for x in tr if x[0] == "call" and x[1] in ("set_constraint", "assert_done")])
+            pe_calls = iter([x[2] for x in tr if x[0] == "call" and x[1] == "is_parameter_encryption"])
+            first = next((x[2] for x in tr if x[0] == "call" and x[1] == "process"), None)
+            L = first["args"]["size_constraints"] if first else None
+            values = {}
+            R = {"cmd": None, "auth": None}
+            pe = None
+
+            def give_up(exc):
+                # warn mode: the command's own regions are reported here and the command is abandoned
+                items.append(("warning", exc))
+                return {"items": items, "outcome": ("return", (Command, dict(values))), "L": L, "R": R}
+
+            for f in fields:
+                name = f["name"]
+                if name in ("authSize", "authorizationArea") and not env.decide(typed_int(values["tag"]) == SESS):
+                    continue
+                want = {"path": sub(path, name), "size_constraints": L}
+                if f["type"] == "Any":
+                    if ccn is None:
+                        # code outside the table: the value error names the commandCode field
+                        return {"items": items, "outcome": ("raise-class", "ValueConstraintViolatedError",
+                                                            {"constraint_path": sub(path, "commandCode"), "tpm_type": reg["TPM_CC"], "valid_values": ("values", (reg["TPM_CC"],)), "value": typed_int(values["commandCode"])}), "L": L, "R": R}
+                    want["type"] = L0["commands"][ccn]["cmd_handles" if name == "handles" else "cmd_params"]["name"]
+                    want["type"] = areas[("cmd_handles" if name == "handles" else "cmd_params", ccn)]
+                else:
+                    want["type"] = f["type"]
+                if name == "authorizationArea":
+                    want["array_size_constraint"] = R["auth"]
+                want["parameter_encryption"] = pe if name == "parameters" else ANY
+                items.append(("process", want))
+                rec = next(pcalls, None)
+                if rec is None:
+                    return {"items": items, "outcome": ("return", None), "L": L, "R": R}
+                if rec["case"] != "return":
+                    exc = rec["exc"]
+                    if not strict and type(exc).__name__ == "SizeConstraintExceededError" and exc.constraint in (R["cmd"], R["auth"]) and exc.constraint is not None:
+                        return give_up(exc)
+                    return {"items": items, "outcome": ("raise", exc), "L": L, "R": R}
+                val = rec["result"]
+                if name in ("commandSize", "authSize"):
+                    sc = next(rcalls, None)
+                    region = sc["args"].get("self") if sc else None
+                    R["cmd" if name == "commandSize" else "auth"] = region
+                    items.append(("set_constraint", {"constraint_path": sub(path, name), "size_max": val, "other_size_constraints": L, "abort_on_error": strict}))
+                    if sc is None:
+                        return {"items": items, "outcome": ("return", None), "L": L, "R": R}
+                    if sc.get("violated") is not None:
+                        if strict:
+                            return {"items": items, "outcome": ("raise", sc["exc"]), "L": L, "R": R}
+                        items.append(("warning", sc["exc"]))
+                if name == "authorizationArea" and val is not None:
+                    pc = next(pe_calls, None)
+                    items.append(("is_parameter_encryption", {"authorizationArea": val}))
+                    if pc is None:
+                        return {"items": items, "outcome": ("return", None), "L": L, "R": R}
+                    b = pc["result"]
+                    pe = b if (isinstance(b, S.SBool) and env.decide(b.t)) else None
+                values[name] = val
+            r = expect_close(items, rcalls, R["cmd"], strict)
+            if r is not None and r[0] == "raise":
+                return {"items": items, "outcome": r, "L": L, "R": R}
+            return {"items": items, "outcome": ("return", (Command, dict(values))), "L": L, "R": R}
+
+        def goal(exp):
+            # is_parameter_encryption items are compared separately
+            items = exp["items"]
+            act = []
+            expi = []
+            g = {}
+            ai = 0
+            for e in items:
+                if ai >= len(tr):
+                    break
+                a = tr[ai]
+                if e[0] == "is_parameter_encryption":
+                    ok = a[0] == "call" and a[1] == "is_parameter_encryption" and a[2]["args"]["authorizationArea"] is e[1]["authorizationArea"] and a[2]["args"]["command"] is None and a[2]["args"]["for_response"] is False
+                    g["trace/decrypt-flag-from-this-commands-sessions"] = (ok, safe_repr(a)[:200])
+                else:
+                    act.append(a)
+                    expi.append(e)
+                ai += 1
+            g["trace/length-total"] = (len(tr) == len(items), f"actual {summ2(tr)} expected {[i[0] for i in items]}")
+            g.update(cmp_walk(ctx, act, outcome, {"items": expi, "outcome": exp["outcome"]}, mode))
+            g.pop("trace/length", None)
+            L = exp["L"]
+            R = exp["R"]
+            pcs = [x[2] for x in tr if x[0] == "call" and x[1] == "process"]
+            if pcs:
+                g["REGION/one-list-per-command"] = (L is not None and type(L).__name__ == "SizeConstraintList" and not I.note_is_shared(L), "constraint list missing or shared")
+                # commandSize region is live from the first header byte (so that it counts tag and commandSize themselves)
+                if R["cmd"] is not None:
+                    g["REGION/commandSize-counts-from-first-byte"] = (any(R["cmd"] is c for c in pcs[0]["live"]), "command region not live while the tag is decoded")
+                if R["auth"] is not None:
+                    idx = next((i for i, p in enumerate(pcs) if p["args"]["path"][-1].name == "authorizationArea"), None)
+                    before = next((i for i, p in enumerate(pcs) if p["args"]["path"][-1].name == "authSize"), None)
+                    if idx is not None:
+                        g["REGION/authSize-region-governs-the-session-area-only"] = (any(R["auth"] is c for c in pcs[idx]["live"]) and (before is None or all(R["auth"] is not c for c in pcs[before]["live"])) and R["auth"] is not R["cmd"], "auth region wrongly scoped")
+            return g
+
+        finish_unit(ctx, outcome, [("TRACE", spec, goal)], "marshal.py:process_command")
+        return outcome
+
+    res = explore(run, max_paths=6000)
+    u.add_paths(res, label)
+    if res:
+        u.samples.append({"unit": label, "paths": len(res), "longest_trace": summ2(max((r.ctx.trace for r in res), key=len))})
+    return u
+
+
+def unit_response(ccn, mode, enc=False):
+    """process_response for one command code (ccn=None: no / unknown command code) and encryption flag"""
+    from tpmstream.spec.commands import Response
+    from tpmstream.spec.structures.constants import TPM_ST
+
+    L0 = layout()
+    reg, areas = registry()
+    label = f"WALK/response/{ccn or 'no-code'}{'/encrypted' if enc else ''}/{mode}"
+    u = UnitResult(label)
+    u.functions = ["tpmstream.io.binary.marshal:process_response"]
+    contract = ProcessContract(L0["primitives"], min_size=min_size)
+    stubs = walker_stubs(contract)
+    path = base_path()[:1]
+    strict = mode == "strict"
+    fields = L0["frames"]["Response"]["fields"]
+    SESS = int(TPM_ST.SESSIONS._value)
+    pe_in = True if enc else None
+
+    def run(ctx):
+        if ccn:
+            cc = cc_member(ccn)
+        else:
+            # a command code outside the table (an integer that is no TPM_CC member)
+            vals = [c["cc"] for c in L0["commands"].values()]
+            cv = ctx.fresh_int("code", 0, 2**32 - 1)
+            ctx.assume(z3.And([cv != x for x in vals]))
+            cc = TypedStub.make(reg["TPM_CC"], S.SInt(cv))
+        ctx.ghost["mode"] = mode
+        I = Interp(ctx, stubs=stubs)
+        igen = run_sync(I.call(M().process_response, (path,), {"command_code": cc, "parameter_encryption": pe_in, "abort_on_error": strict}))
+        outcome = drive_coroutine(ctx, igen)
+        tr = ctx.trace
+
+        def spec(env):
+            items = [("event", path, Response)]
+            pcalls = iter([x[2] for x in tr if x[0] == "call" and x[1] == "process"])
+            rcalls = iter([x[2] for x in tr if x[0] == "call" and x[1] in ("set_constraint", "assert_done")])
+            pe_calls = iter([x[2] for x in tr if x[0] == "call" and x[1] == "is_parameter_encryption"])
+            first = next((x[2] for x in tr if x[0] == "call" and x[1] == "process"), None)
+            L = first["args"]["size_constraints"] if first else None
+            values = {}
+            R = {"rsp": None, "par": None}
+            out = lambda o: {"items": items, "outcome": o, "L": L, "R": R}
+
+            for f in fields:
+                name = f["name"]
+                if name in ("parameterSize", "authorizationArea") and not env.decide(typed_int(values["tag"]) == SESS):
+                    continue
+                if name in ("handles", "parameterSize", "parameters", "authorizationArea") and not env.decide(typed_int(values["responseCode"]) == 0):
+                    continue  # failed response: header only
+                want = {"path": sub(path, name), "size_constraints": L}
+                if f["type"] == "Any":
+                    if ccn is None:
+                        return out(("raise-class", "ValueConstraintViolatedError", {"tpm_type": reg["TPM_CC"], "valid_values": ("values", (reg["TPM_CC"],)), "value": typed_int(cc)}))
+                    want["type"] = areas[("rsp_handles" if name == "handles" else "rsp_params", ccn)]
+                else:
+                    want["type"] = f["type"]
+                if name == "authorizationArea":
+                    want["array_size_constraint"] = R["rsp"]
+                want["parameter_encryption"] = pe_in if name == "parameters" else ANY
+                items.append(("process", want))
+                rec = next(pcalls, None)
+                if rec is None:
+                    return out(("return", None))
+                if rec["case"] != "return":
+                    exc = rec["exc"]
+                    if not strict and type(exc).__name__ == "SizeConstraintExceededError" and exc.constraint is not None and exc.constraint in (R["rsp"], R["par"]):
+                        items.append(("warning", exc))
+                        return out(("return", (Response, dict(values))))
+                    return out(("raise", exc))
+                val = rec["result"]
+                if name == "parameters" and "parameterSize" in values:
+                    r = expect_close(items, rcalls, R["par"], strict)
+                    if r is not None and r[0] == "raise":
+                        return out(r)
+                if name in ("responseSize", "parameterSize"):
+                    sc = next(rcalls, None)
+                    R["rsp" if name == "responseSize" else "par"] = sc["args"].get("self") if sc else None
+                    items.append(("set_constraint", {"constraint_path": sub(path, name), "size_max": val, "other_size_constraints": L, "abort_on_error": strict}))
+                    if sc is None:
+                        return out(("return", None))
+                    if sc.get("violated") is not None:
+                        if strict:
+                            return out(("raise", sc["exc"]))
+                        items.append(("warning", sc["exc"]))
+                if name == "authorizationArea" and val is not None:
+                    pc = next(pe_calls, None)
+                    items.append(("is_parameter_encryption", {"authorizationArea": val}))
+                    if pc is None:
+                        return out(("return", None))
+                    b = pc["result"]
+                    consistent = (env.decide(b.t) if isinstance(b, S.SBool) else bool(b)) == (pe_in is True)
+                    if not consistent:
+                        # the flag handed in disagrees with the response's own sessions: outside the well-formed inputs of
+                        # C01/C03/C04/C07; C06/C08 still demand a documented outcome (obligation ENCFLAG/...)
+                        return out(("mismatch",))
+                values[name] = val
+            r = expect_close(items, rcalls, R["rsp"], strict)
+            if r is not None and r[0] == "raise":
+                return out(r)
+            return out(("return", (Response, dict(values))))
+
+        def goal(exp):
+            items = exp["items"]
+            act, expi, g = [], [], {}
+            ai = 0
+            for e in items:
+                if ai >= len(tr):
+                    break
+                a = tr[ai]
+                if e[0] == "is_parameter_encryption":
+                    ok = a[0] == "call" and a[1] == "is_parameter_encryption" and a[2]["args"]["authorizationArea"] is e[1]["authorizationArea"] and a[2]["args"]["for_response"] is True
+                    g["trace/encrypt-flag-checked-against-this-responses-sessions"] = (ok, safe_repr(a)[:200])
+                else:
+                    act.append(a)
+                    expi.append(e)
+                ai += 1
+            if exp["outcome"] == ("mismatch",):
+                ctx.ghost["outside_contract"] = True
+                bad = outcome[0] == "raise" and isinstance(outcome[1].exc, INTERNAL)
+                return {"ENCFLAG/mismatch-of-flag-and-sessions-has-a-documented-outcome": (not bad, f"actual {safe_repr(outcome)}")}
+            g["trace/length-total"] = (len(tr) == len(items), f"actual {summ2(tr)} expected {[i[0] for i in items]}")
+            g.update(cmp_walk(ctx, act, outcome, {"items": expi, "outcome": exp["outcome"]}, mode))
+            g.pop("trace/length", None)
+            L, R = exp["L"], exp["R"]
+            pcs = [x[2] for x in tr if x[0] == "call" and x[1] == "process"]
+            if pcs:
+                g["REGION/one-list-per-response"] = (L is not None and type(L).__name__ == "SizeConstraintList" and not I.note_is_shared(L), "constraint list missing or shared")
+                if R["rsp"] is not None:
+                    g["REGION/responseSize-counts-from-first-byte"] = (any(R["rsp"] is c for c in pcs[0]["live"]), "response region not live while the tag is decoded")
+                if R["par"] is not None:
+                    idx = next((i for i, p in enumerate(pcs) if p["args"]["path"][-1].name == "parameters"), None)
+                    bef = next((i for i, p in enumerate(pcs) if p["args"]["path"][-1].name == "parameterSize"), None)
+                    aft = next((i for i, p in enumerate(pcs) if p["args"]["path"][-1].name == "authorizationArea"), None)
+                    if idx is not None:
+                        ok = any(R["par"] is c for c in pcs[idx]["live"]) and (bef is None or all(R["par"] is not c for c in pcs[bef]["live"])) and (aft is None or all(R["par"] is not c for c in pcs[aft]["live"]))
+                        g["REGION/parameterSize-region-governs-the-parameters-only"] = (ok, "parameter region wrongly scoped")
+            return g
+
+        finish_unit(ctx, outcome, [("TRACE", spec, goal)], "marshal.py:process_response")
+        return outcome
+
+    res = explore(run, max_paths=6000)
+    u.add_paths(res, label)
+    if res:
+        u.samples.append({"unit": label, "paths": len(res), "longest_trace": summ2(max((r.ctx.trace for r in res), key=len))})
+    return u
+
+
+def command_result_hook(ctx, T, tag, a):
+    """result object of a callee that decodes a Command: carries commandCode and (maybe) a session area"""
+    from tpmstream.spec.commands import Command
+    from tpmstream.spec.structures.constants import TPM_CC
+
+    if T is not Command:
+        return None
+    obj = Command.__new__(Command)
+    v = ctx.fresh_int(f"cc{tag}", 0, 2**32 - 1)
+    object.__setattr__(obj, "commandCode", TypedStub.make(TPM_CC, S.SInt(v)))
+    has_sessions = ctx.fork([z3.BoolVal(True), z3.BoolVal(True)], "command-has-sessions") == 0
+    object.__setattr__(obj, "authorizationArea", Opaque("sessions", tag) if has_sessions else None)
+    return obj
+
+
+def unit_stream(mode):
+    from tpmstream.spec.commands import Command, Response
+
+    L0 = layout()
+    label = f"WALK/stream/{mode}"
+    u = UnitResult(label)
+    u.functions = ["tpmstream.io.binary.marshal:process_command_response_stream"]
+    contract = ProcessContract(L0["primitives"], result_hook=command_result_hook, min_size=min_size)
+    stubs = walker_stubs(contract)
+    loops = loop_specs()
+    path = base_path()[:1]
+    strict = mode == "strict"
+
+    def check_iteration(ctx, outcome):
+        tr = ctx.trace
+        pcs = [x[2] for x in tr if x[0] == "call" and x[1] == "process"]
+        pes = [x[2] for x in tr if x[0] == "call" and x[1] == "is_parameter_encryption"]
+        site = "marshal.py:process_command_response_stream"
+        ctx.record("STREAM/iteration-decodes-a-command-first", len(pcs) >= 1 and pcs[0]["args"]["tpm_type"] is Command and pcs[0]["args"]["path"] == path and pcs[0]["args"]["abort_on_error"] is strict and pcs[0]["args"]["size_constraints"] is None, site=site)
+        if pcs and pcs[0]["case"] != "return":
+            ctx.record("STREAM/command-error-propagates", outcome is not None and outcome[0] == "raise" and outcome[1].exc is pcs[0]["exc"], site=site)
+            return
+        if len(pcs) < 2:
+            ctx.record("STREAM/then-the-response", False, site=site, detail=summ2(tr).__repr__())
+            return
+        cmd = pcs[0]["result"]
+        a = pcs[1]["args"]
+        if cmd is None:
+            return  # warn mode: the command decode gave up; the property says nothing about what follows
+        ok = a["tpm_type"] is Response and a["path"] == path and a["abort_on_error"] is strict and a["size_constraints"] is None
+        ctx.record("STREAM/then-the-response", ok, site=site)
+        ctx.record("STREAM/response-uses-the-preceding-commands-code", a["command_code"] is getattr(cmd, "commandCode", None), site=site)
+        # encrypted first parameter iff one of that command's sessions requested response encryption
+        pe = a["parameter_encryption"]
+        if getattr(cmd, "authorizationArea", None) is None:
+            ctx.record("STREAM/response-encryption-iff-requested", pe is None, site=site, detail=f"no sessions, flag {pe!r}")
+        else:
+            okc = len(pes) == 1 and pes[0]["args"]["command"] is cmd and pes[0]["args"]["for_response"] is True and pes[0]["args"]["authorizationArea"] is None
+            ctx.record("STREAM/response-encryption-asks-this-command", okc, site=site)
+            if okc and isinstance(pes[0]["result"], S.SBool):
+                b = pes[0]["result"].t
+                if pe is None:
+                    ctx.oblige("STREAM/response-encryption-iff-requested", z3.Not(b), site=site)
+                elif pe is True or isinstance(pe, S.SBool):
+                    ctx.oblige("STREAM/response-encryption-iff-requested", z3.And(b, S.bterm(pe)), site=site)
+                else:
+                    ctx.record("STREAM/response-encryption-iff-requested", False, site=site, detail=f"flag {pe!r}")
+        if pcs[1]["case"] != "return":
+            ctx.record("STREAM/response-error-propagates", outcome is not None and outcome[0] == "raise" and outcome[1].exc is pcs[1]["exc"], site=site)
+
+    def run(ctx):
+        ctx.ghost["mode"] = mode
+        I = Interp(ctx, stubs=stubs, loop_specs=loops)
+        igen = run_sync(I.call(M().process_command_response_stream, (path,), {"abort_on_error": strict}))
+        from pyvc.interp import PathEnd
+        try:
+            outcome = drive_coroutine(ctx, igen)
+        except PathEnd:
+            check_iteration(ctx, None)
+            ctx.record("no-internal-error", True, "safety")
+            ctx.record("FRAME/no-write-to-shared-state", not ctx.frame_writes, "frame", detail="; ".join(ctx.frame_writes[:3]))
+            raise
+        check_iteration(ctx, outcome)
+        if outcome[0] == "raise" and isinstance(outcome[1].exc, INTERNAL):
+            ctx.record("no-internal-error", False, "safety", outcome[1].site or "", detail=repr(outcome[1].exc))
+        elif outcome[0] == "return":
+            ctx.record("STREAM/never-returns-by-itself", False, site="marshal.py:process_command_response_stream")
+        ctx.record("FRAME/no-write-to-shared-state", not ctx.frame_writes, "frame", detail="; ".join(ctx.frame_writes[:3]))
+        return outcome
+
+    res = explore(run, max_paths=2000)
+    u.add_paths(res, label)
+    if res:
+        u.samples.append({"unit": label, "paths": len(res)})
     return u
